@@ -497,13 +497,20 @@ func (c *Ctx) c01Opaque(ar *ssa.Function) {
 	f := c.P.Method("diam/dict", "Parser", "FindAVPWithVendor")
 	found := false
 	if f != nil {
-		flow.Instrs(f, func(in ssa.Instruction) {
-			if ret, ok := in.(*ssa.Return); ok && len(ret.Results) == 2 {
-				if call, ok := ret.Results[0].(*ssa.Call); ok && flow.IsCallTo(call, pkgDict, "", "MakeUnknownAVP") {
-					found = true
-				}
+		// in the lookup itself or in a step function it delegates to (what it yields for each situation is
+		// decided exhaustively by the chain interpreter, C17 R3 / R6 below)
+		for g := range c.reach([]*ssa.Function{f}, false, false, false) {
+			if pkgOf(g) == nil || pkgOf(g).Path() != pkgDict {
+				continue
 			}
-		})
+			flow.Instrs(g, func(in ssa.Instruction) {
+				if ret, ok := in.(*ssa.Return); ok && len(ret.Results) == 2 {
+					if call, ok := ret.Results[0].(*ssa.Call); ok && flow.IsCallTo(call, pkgDict, "", "MakeUnknownAVP") {
+						found = true
+					}
+				}
+			})
+		}
 	}
 	r.Check(found, "R6", "dict.FindAVPWithVendor:unknown-placeholder", c.fpos(f), "the not-found exit returns the Unknown placeholder AVP", "an AVP code unknown to the dictionary does not yield the opaque placeholder: such AVPs cannot be carried through a round trip")
 	// no vendor-blind or code-only fallback: an AVP of a vendor the dictionary does not know must stay opaque
@@ -528,8 +535,17 @@ func (c *Ctx) c01Opaque(ar *ssa.Function) {
 		cands := []*ssa.Function{ar}
 		for _, ci := range flow.CallInstrs(ar) {
 			// the dictionary step may be a method of its own (decodeData)
-			if h := flow.StaticCallee(ci); h != nil && h.Blocks != nil && c.P.IsLibrary(h) && pkgOf(h).Path() == pkgDiam && h.Signature.Recv() != nil && flow.RecvTypeName(h.Signature) == "AVP" && !c.isAVPDecodeFn(h) {
-				cands = append(cands, h)
+			if h := flow.StaticCallee(ci); h != nil && h.Blocks != nil && c.P.IsLibrary(h) && pkgOf(h).Path() == pkgDiam && !c.isAVPDecodeFn(h) {
+				isStep := h.Signature.Recv() != nil && flow.RecvTypeName(h.Signature) == "AVP"
+				// … or a plain helper wrapped around the lookup
+				for _, cj := range flow.CallInstrs(h) {
+					if flow.IsCallTo(cj, pkgDict, "Parser", "FindAVPWithVendor") {
+						isStep = true
+					}
+				}
+				if isStep {
+					cands = append(cands, h)
+				}
 			}
 		}
 		for _, g := range cands {
